@@ -129,6 +129,16 @@ CHECKS["C06"] = dict(
          "The unweighted counting path is compared with the same closed form on enumerated concrete frames, including row/column permutations.",
     note="Partial: EM (likelihood monotonicity), n_jobs>1 and the unweighted pandas counting itself are outside the solver claim. Bounds: <=3 columns, "
          "cards<=3, design frames with <=1 row per joint configuration, weights strictly increasing along the row index.", ref="5/C06")
+CHECKS["C07"] = dict(
+    text="(a) GibbsSampling kernels built from Bayesian and Markov networks with all entries symbolic: kernel[var][others][s] * sum_s' joint = joint for "
+         "every configuration and state-name style. (b) BayesianModelSampling.forward_sample / rejection_sample / likelihood_weighted_sample run on the "
+         "real float backend with numpy's random choice replaced by inverse-CDF sampling over fresh SYMBOLIC uniforms: every path is one sample frame whose "
+         "path condition is a box in uniform-space; per path: row count, declared state names, zero-probability states infeasible, evidence fixed, latent "
+         "columns, partial samples, likelihood weight; across all paths (exhaustive for size 1): the exact rational volume of the boxes yielding x equals "
+         "P(x) (forward), P(x,e) (first-round rejection), the proposal (likelihood weighting). Law violations are replayed statistically on the real "
+         "generator; seed reproducibility is checked concretely.",
+    note="Partial: large-sample convergence, HMC/NUTS, simulate() and missingness are outside. Bounds: <=4 nodes, sample size <=2, <=14 draws per path.",
+    ref="5/C07")
 
 NOT_APPLICABLE = {
     "C19": "statistic, dof and p-value are produced inside pandas.groupby / numpy.bincount / scipy.stats.chi2_contingency / chi2.cdf "
